@@ -134,6 +134,51 @@ def annual_body(constraint, steps):
     return body
 
 
+def dated_body(one_off, constraint, dense=True):
+    """Time-varying program book series (spending, unit cost, capacity constraint, saturation) are step functions: the value in
+    force at t is the last dated value at or before t (the first value before the first date)"""
+
+    def body(env):
+        ap, au = _mods()
+        dt = env.real("dt", 1.0 / 365, 5)
+        e = env.real("e", 0, VMAX)
+        dates = dict(spend=(2018.0, 2020.0), unit=(2018.25, 2020.0), K=(2019.0, 2021.0), sat=(2018.5, 2020.5))
+        vals = dict(spend=(env.real("s0", 0, VMAX), env.real("s1", 0, VMAX)), unit=(env.real("u0", 1e-6, VMAX), env.real("u1", 1e-6, VMAX)), K=(env.real("K0", 0, VMAX), env.real("K1", 0, VMAX)), sat=(env.real("a0", 1e-3, 100), env.real("a1", 1e-3, 100)))
+        tq = [2017.0, 2018.0, 2018.25, 2018.75, 2019.0, 2019.5, 2020.0, 2020.25, 2020.5, 2021.0, 2023.0] if dense else [2017.0, 2019.0, 2019.5, 2020.0, 2020.5, 2023.0]
+
+        def in_force(name, t):
+            return vals[name][1] if t >= dates[name][1] else vals[name][0]
+
+        with env.installed(shim.patches_for(ap, au)):
+            prog = ap.Program("P", target_pops=["pop"], target_comps=["c"])
+            prog.unit_cost = au.TimeSeries(t=list(dates["unit"]), vals=list(vals["unit"]), units="$/person" if one_off else "$/person/year")
+            prog.spend_data = au.TimeSeries(t=list(dates["spend"]), vals=list(vals["spend"]), units="$/year")
+            prog.saturation = au.TimeSeries(t=list(dates["sat"]), vals=list(vals["sat"]), units="N.A.")
+            if constraint:
+                prog.capacity_constraint = au.TimeSeries(t=list(dates["K"]), vals=list(vals["K"]), units="people" if constraint == "abs" else "people/year")
+            ps = _progset(ap, prog)
+            instr = ap.ProgramInstructions(start_year=2016.0)
+            alloc = ps.get_alloc(tq, instr)["P"]
+            caps = ps.get_capacities(tq, dt, instr)
+            cov = ps.get_prop_coverage(tq, dt, caps, {"P": env.array([e] * len(tq))}, instr)["P"]
+            caps = caps["P"]
+            ax = shim.exp_axioms() if env.symbolic else ()
+        for k, t in enumerate(tq):
+            sp, u, a = in_force("spend", t), in_force("unit", t), in_force("sat", t)
+            env.claim("spending_in_force_t%d" % k, env.eq(alloc[k], sp, 0), key="stepped_spending")
+            cp = sp * (dt if one_off else 1.0) / u
+            if constraint:
+                Kstep = in_force("K", t) * (dt if constraint == "year" else 1.0)
+                cp = env.smin(cp, Kstep)
+                env.claim("covered_le_constraint_in_force_t%d" % k, env.le(cov[k] * e, Kstep), key="stepped_constraint", extra_axioms=ax)
+            env.claim("capacity_from_values_in_force_t%d" % k, env.eq(caps[k], cp), key="stepped_capacity")
+            env.claim("coverage_le_saturation_in_force_t%d" % k, env.le(cov[k], a), key="stepped_saturation", extra_axioms=ax)
+            env.claim("coverage_in_unit_interval_t%d" % k, env.ge(cov[k], 0.0, 0) & env.le(cov[k], 1.0, 0), key="bounds", extra_axioms=ax)
+            env.claim("covered_le_capacity_t%d" % k, env.le(cov[k] * e, caps[k]), key="le_capacity", extra_axioms=ax)
+
+    return body
+
+
 def precedence_body(one_off, has_alloc, has_cap, has_cov, series):
     """Overwrite precedence through ProgramInstructions + ProgramSet.get_alloc/get_capacities/get_prop_coverage"""
 
@@ -207,6 +252,13 @@ def _specs(tier):
     for constraint in (None, "year"):
         for steps in (1, 2, 4, 12):
             specs.append(("annual[constraint=%s;steps=%d]" % (constraint, steps), annual_body, dict(constraint=constraint, steps=steps)))
+    for one_off in (True, False):
+        for constraint in (None, "abs", "year"):
+            if tier == "quick":
+                if (one_off, constraint) in ((True, "year"), (False, "abs")):
+                    specs.append(("dated[%s;constraint=%s;6 query times]" % ("one-off" if one_off else "continuous", constraint), dated_body, dict(one_off=one_off, constraint=constraint, dense=False)))
+                continue
+            specs.append(("dated[%s;constraint=%s]" % ("one-off" if one_off else "continuous", constraint), dated_body, dict(one_off=one_off, constraint=constraint)))
     combos = [(True, False, False), (False, True, False), (False, False, True), (True, True, False), (True, False, True), (True, True, True), (False, False, False)]
     for one_off in (True, False):
         for has_alloc, has_cap, has_cov in combos:
@@ -233,7 +285,7 @@ def groups(tier):
 
 
 def replay(rec):
-    for nm, fac, kw in _specs("thorough"):
+    for nm, fac, kw in _specs("thorough") + _specs("quick"):
         if nm == rec["replay"]["group"]:
             return replay_body(fac(**kw), rec["model"], rec["replay"]["claim"])
     return False, "unknown group"
